@@ -74,13 +74,13 @@ theorem syncAcc_accOk (nd : Node) (h : NodeNC nd) (rv : Option (List String)) : 
       exact ih _ (fun x hx => hl x (List.mem_cons_of_mem _ hx)) (syncStep_accOk nd h rv acc a (hl a List.mem_cons_self) ha)
   exact this _ _ (fun _ hx => hx) ⟨fun h => Bool.noConfusion h, fun x hx => nomatch hx⟩
 
-/-- the effect of `sync_states` on the store: a set `rem` of `f`-mode set states of the node leaves the acting worker's
-own pool; nothing else changes -/
+/-- the effect of `sync_states` on the store: a set `rem` of `f`-mode set states of the node leaves the own pool of the
+worker the copy was parsed for (`netOf`); nothing else changes -/
 theorem syncStates_rm (g : Graph) (s : State) (n w : Nat) (rv : Option (List String)) (h : NodeNC (g.node n)) :
     ∃ rem : List (String × String), (∀ x ∈ rem, x ∈ (g.node n).sets ∧ fMode (g.node n) x = true) ∧
       (∃ st, (syncStates g s n w rv).1 = { s with store := st }) ∧
       ∀ loc vs, vs ∈ storeGet (syncStates g s n w rv).1.store loc ↔
-        vs ∈ storeGet s.store loc ∧ ¬ (loc = (g.worker w).id ∧ vs ∈ rem) := by
+        vs ∈ storeGet s.store loc ∧ ¬ (loc = (g.worker (g.netOf n w)).id ∧ vs ∈ rem) := by
   have hacc := syncAcc_accOk (g.node n) h rv
   unfold syncStates
   dsimp only
@@ -89,7 +89,7 @@ theorem syncStates_rm (g : Graph) (s : State) (n w : Nat) (rv : Option (List Str
     simp only [hc, Bool.not_true, Bool.false_eq_true, if_false, hu, beq_self_eq_true, if_true]
     refine ⟨(syncAcc (g.node n) rv).2.2.1, hacc.2, ⟨_, rfl⟩, fun loc vs => ?_⟩
     rw [storeGet_storeSet]
-    by_cases hl : loc = (g.worker w).id
+    by_cases hl : loc = (g.worker (g.netOf n w)).id
     · subst hl
       simp only [if_true, List.mem_filter, Bool.not_eq_eq_eq_not, Bool.not_true, true_and]
       constructor
@@ -410,6 +410,8 @@ theorem reverseNode_semR (g : Graph) (hy : SemHypR g) (hO : OwnerNames g)
         have ho : (g.node n).owner = some w := (hO w n hn hf).mp hid
         obtain ⟨rem, hrem, ⟨st, hst1⟩, hst⟩ :=
           syncStates_rm g (s.setNd n (fun d => { d with started := some w })) n w none (hy.noCopyBack n hn)
+        have hnet : g.netOf n w = w := by unfold Graph.netOf; rw [ho]; rfl
+        rw [hnet] at hst
         rw [hst1] at hst h
         have j1 := SemR.rm hy j0 n w rem st hn hf ho hready0 hrem hst
         refine ⟨?_, fun e he => ?_⟩
@@ -1111,7 +1113,7 @@ theorem resumeTest_semR (g : Graph) (hwf : GraphWF g) (hroot : (g.node g.root).f
     obtain ⟨ost, odur⟩ := out
     simp only at hst
     subst hst
-    obtain ⟨hnodes, _, hjob, hstore⟩ := reportOutcomeR_eff g s w n uid st odur
+    obtain ⟨hnodes, _, hjob, hstore⟩ := reportOutcomeR_eff g s w n uid st odur ho
     have hfind : (reportOutcomeR g s w n .plain uid 0 ⟨some st, odur⟩).1.jobResults.find?
         (fun r => r.1 == (g.node n).name && r.2.1 == uid) = some ((g.node n).name, uid, st, odur) := by
       rw [hjob, List.find?_append, hnone]
